@@ -14,6 +14,8 @@ up to `n` times, re-issuing `pop()` the moment its previous pop was resolved wit
 i.e. before the operation that woke it returns) and stopping at the first exception.  The sequential harness has no
 second thread, so every in-flight resolution is performed right after the lock region that decided it.
 
+`popthrow` / `cothrow` are a `pop()` (plain call / from a coroutine) during which the hand-over of the item throws;
+`q vec` is `queue<std::vector<int>>` with `pushn k v` = the emplace-style `push(k, v)` (model value k*1000+v).
 `pushthrow` is a `push` whose item constructor throws (kinds `q` / `sq`; `vq` has no item: `n/a`).
 
 Kinds `sq` / `svq` (harness `run_sched`): scheduled interleavings, see `Drivers/SchedCommon.lean`; this file supplies
@@ -45,6 +47,7 @@ structure DState (σ : Type) where
   loops : List (Nat × Nat) := []
   nextCons : Nat := 1
   void : Bool := false      -- `vq`: there is no item constructor that could throw
+  vec : Bool := false       -- `q vec`: the items are std::vector<int> (value k*1000+v = k copies of v); nothing throws
 
 /-- an event to print: `(pop id, 0 = issued and parked | 1 = resolved, text)` -/
 abbrev PEv := Nat × Nat × String
@@ -125,9 +128,10 @@ def headOf (op : Op) (r : Res) : String :=
       | _ => "empty " ++ boolStr b)
   | Res.num n => s!"size {n}"
   | Res.unit => "destroy"
-  | Res.threw => "pushthrow threw"
+  | Res.threw => (match op with | Op.popthrow _ => "popthrow threw" | _ => "pushthrow threw")
   | Res.full => (match op with
       | Op.pop _ => "pop full"
+      | Op.popthrow _ => "pop full"
       | Op.pushthrow => "pushthrow full"
       | _ => "push full")
   | Res.bad => "bad-op"
@@ -153,13 +157,46 @@ partial def caseLoop {σ} (m : Mach σ) (lines : Array String) (i : Nat) (d : DS
         else
           match parseOp ws with
           | some op =>
+              let op := match op with
+                | Op.push p v => if d.vec then Op.push p (1000 + v) else op
+                | _ => op
               let (d', r, evs) := doOp m d op
               IO.println (finish (headOf op r) evs)
               caseLoop m lines (i+1) d'
           | none => IO.println "bad-op"; caseLoop m lines (i+1) d
+    | ["pushn", k, v] =>
+        -- emplace-style push(k, v) into queue<std::vector<int>>: one item, k copies of v, whichever path it takes
+        match (if d.vec then k.toNat? else none), v.toNat? with
+        | some k, some v =>
+            let (d', r, evs) := doOp m d (Op.push 0 (k * 1000 + v))
+            IO.println (finish (headOf (Op.push 0 0) r) evs)
+            caseLoop m lines (i+1) d'
+        | _, _ => IO.println "bad-op"; caseLoop m lines (i+1) d
+    | ["popthrow"] =>
+        if d.void || d.vec then
+          IO.println "popthrow n/a"
+          caseLoop m lines (i+1) d
+        else
+          let (d', r, evs) := doOp m d (Op.popthrow 0)
+          IO.println (finish (headOf (Op.popthrow 0) r) evs)
+          caseLoop m lines (i+1) d'
+    | ["cothrow"] =>
+        if d.void || d.vec then
+          IO.println "cothrow n/a"
+          caseLoop m lines (i+1) d
+        else
+          let c := d.nextCons
+          let d1 := { d with nextCons := c + 1 }
+          match m.step d.st (Op.popthrow c) with
+          | (s', Res.pop id none) =>
+              IO.println (finish "cothrow" [(id, 0, s!"pop#{id}+")])
+              caseLoop m lines (i+1) { d1 with st := s', loops := (c, 0) :: d1.loops }
+          | (s', Res.threw) => IO.println "cothrow threw"; caseLoop m lines (i+1) { d1 with st := s' }
+          | (s', Res.full) => IO.println "cothrow full"; caseLoop m lines (i+1) { d1 with st := s' }
+          | (s', _) => IO.println "bad-op"; caseLoop m lines (i+1) { d1 with st := s' }
     | ["pushthrow"] =>
-        if d.void then
-          IO.println "pushthrow n/a"      -- the harness does not call anything: `void` has no constructor
+        if d.void || d.vec then
+          IO.println "pushthrow n/a"      -- the harness does not call anything: no constructor that could throw
           caseLoop m lines (i+1) d
         else
           let (d', r, evs) := doOp m d Op.pushthrow
@@ -196,6 +233,7 @@ def schedOp (void : Bool) (ws : List String) : Option Op :=
   | ["push", v] => v.toNat?.map (Op.push 0)
   | ["push"] => if void then some (Op.push 0 0) else none
   | ["pushthrow"] => if void then none else some Op.pushthrow
+  | ["popthrow"] => if void then none else some (Op.popthrow 0)
   | ["pop"] => some (Op.pop 0)
   | ["upop", c] => c.toNat?.map Op.upop
   | ["size"] => some Op.size
@@ -207,6 +245,7 @@ def schedModel {σ} (m : Mach σ) (void : Bool) : Sched.Model (SSt σ) where
     match schedOp void ws with
     | none => none
     | some (Op.pop _) => some (s!"pop#{ctr.1}", ctr.1, (ctr.1 + 1, ctr.2))
+    | some (Op.popthrow _) => some (s!"pop#{ctr.1}", ctr.1, (ctr.1 + 1, ctr.2))   -- the id is used up even if it throws
     | some _ => some (ws.headD "", 0, ctr)
   apply s ws hid :=
     match schedOp void ws with
@@ -246,7 +285,7 @@ partial def loop (lines : Array String) (i : Nat) : IO Unit := do
           | ["w1m"] => (none, some 1)
           | ["s1w1"] => (some 1, some 1)
           | _ => (none, none)
-        let j ← caseLoop machQ lines (i+1) { st := Q.initCfg cap wcap }
+        let j ← caseLoop machQ lines (i+1) { st := Q.initCfg cap wcap, vec := cfg == ["vec"] }
         loop lines j
     | ("case" :: id :: "vq" :: cfg) =>
         IO.println s!"case {id}"
